@@ -11,7 +11,7 @@ def run(ctx):
         "two systems are the same iff depth, batch size and the byte-exact re-serialisation of proving key, verifying key and constraint system agree; interchangeability is additionally exercised by cross prove/verify",
         "all file operations of a behaviour run in ONE process (as `setup` / `convert-to-raw` / a long-lived service would), several systems alive at once",
     ]
-    systems = [dict(id="insA", kind="real", mode="insertion", depth=2, batch=1), dict(id="delB", kind="real", mode="deletion", depth=1, batch=2)]
+    systems = [dict(id="insA", kind="real", mode="insertion", depth=2, batch=1), dict(id="delB", kind="real", mode="deletion", depth=1, batch=3)]      # more slots than leaves: legal for deletion (padding)
     if not ctx.quick:
         systems += [dict(id="insA2", kind="real", mode="insertion", depth=2, batch=1), dict(id="delC", kind="real", mode="deletion", depth=3, batch=2)]
     # section lengths only matter for the crash actions; use the synthetic layout's shape for the model
